@@ -38,6 +38,7 @@ var subst = map[string][2]string{
 	"math/rand":   {base + "vrand", "rand"},
 	"math/rand/v2": {base + "vrand2", "rand"},
 	"time":        {base + "vtime", "time"},
+	"context":     {base + "vcontext", "context"},
 }
 
 type edit struct {
@@ -163,6 +164,7 @@ func main() {
 	// other exported functions of package uu that hand out IDs (func() ID, func(int) []ID,
 	// func(int) ID, func() []ID): an edited tree that grows a batch API is exercised through it too
 	sources, srcNames := "", ""
+	needCtx := false
 	uuAlias := ""
 	for i, p := range pkgs {
 		if p.dir != "uu" {
@@ -176,8 +178,15 @@ func main() {
 					continue
 				}
 				res := fd.Type.Results
-				if res == nil || len(res.List) != 1 || len(res.List[0].Names) > 1 {
+				if res == nil || len(res.List) < 1 || len(res.List) > 2 || len(res.List[0].Names) > 1 {
 					continue
+				}
+				withErr := false
+				if len(res.List) == 2 {
+					if id, ok := res.List[1].Type.(*ast.Ident); !ok || id.Name != "error" || len(res.List[1].Names) > 1 {
+						continue
+					}
+					withErr = true
 				}
 				many := false
 				switch t := res.List[0].Type.(type) {
@@ -193,31 +202,43 @@ func main() {
 				default:
 					continue
 				}
-				np := 0
-				intParam := false
+				// parameters: any mix of at most one int and at most one context.Context
+				var args []string
+				okParams := true
+				ints, ctxs := 0, 0
 				if fd.Type.Params != nil {
 					for _, f := range fd.Type.Params.List {
 						k := len(f.Names)
 						if k == 0 {
 							k = 1
 						}
-						np += k
-						if id, ok := f.Type.(*ast.Ident); ok && id.Name == "int" {
-							intParam = true
+						for j := 0; j < k; j++ {
+							if id, ok := f.Type.(*ast.Ident); ok && id.Name == "int" {
+								ints++
+								args = append(args, "n")
+							} else if se, ok := f.Type.(*ast.SelectorExpr); ok && se.Sel.Name == "Context" {
+								ctxs++
+								args = append(args, "vcontext.Pick(n)")
+								needCtx = true
+							} else {
+								okParams = false
+							}
 						}
 					}
 				}
-				if np > 1 || (np == 1 && !intParam) {
+				if !okParams || ints > 1 || ctxs > 1 {
 					continue
 				}
-				arg := ""
-				if np == 1 {
-					arg = "n"
-				}
-				if many {
-					sources += fmt.Sprintf("\tfunc(n int) []uu.ID { return uu.%s(%s) },\n", fd.Name.Name, arg)
-				} else {
-					sources += fmt.Sprintf("\tfunc(n int) []uu.ID { return []uu.ID{uu.%s(%s)} },\n", fd.Name.Name, arg)
+				call := fmt.Sprintf("uu.%s(%s)", fd.Name.Name, strings.Join(args, ", "))
+				switch {
+				case many && withErr:
+					sources += fmt.Sprintf("\tfunc(n int) []uu.ID { ids, err := %s; if err != nil { return nil }; return ids },\n", call)
+				case many:
+					sources += fmt.Sprintf("\tfunc(n int) []uu.ID { return %s },\n", call)
+				case withErr:
+					sources += fmt.Sprintf("\tfunc(n int) []uu.ID { id, err := %s; if err != nil { return nil }; return []uu.ID{id} },\n", call)
+				default:
+					sources += fmt.Sprintf("\tfunc(n int) []uu.ID { return []uu.ID{%s} },\n", call)
 				}
 				srcNames += fmt.Sprintf("%q, ", "uu."+fd.Name.Name)
 				uuAlias = "\tuu \"go.lstv.dev/util/uu\"\n"
@@ -226,6 +247,9 @@ func main() {
 	}
 	_ = uuAlias
 	fullImports := imports + "\tuu \"go.lstv.dev/util/uu\"\n"
+	if needCtx {
+		fullImports += "\tvcontext \"" + base + "vcontext\"\n"
+	}
 	if resetOnly {
 		src := fmt.Sprintf("// Code generated by vsim rewrite. DO NOT EDIT.\n\npackage %s\n\nimport (\n%s)\n\n// resetPackages re-initialises the package-level state of the packages under test.\nfunc resetPackages() {\n%s}\n", filepath.Base(filepath.Dir(out)), imports, calls)
 		if err := os.WriteFile(out, []byte(src), 0o644); err != nil {
@@ -1420,11 +1444,16 @@ func (p *pkgCtx) rewriteConcurrency(fc *fileCtx) {
 				inSelectComm[x.X] = true
 			}
 		case *ast.CallExpr:
-			if se, ok := x.Fun.(*ast.SelectorExpr); ok && se.Sel.Name == "Gosched" && len(x.Args) == 0 {
+			if se, ok := x.Fun.(*ast.SelectorExpr); ok {
+				// the scheduler-facing part of package runtime is a seam too: yields, and what the
+				// code believes about the number of processors and goroutines
 				if id, ok := se.X.(*ast.Ident); ok && id.Obj == nil && id.Name == fc.runtimeName && fc.runtimeName != "" {
-					fc.need["vsched"] = true
-					fc.repl(se.Pos(), se.End(), "vsched.Gosched")
-					fc.goschedRewritten = true
+					switch se.Sel.Name {
+					case "Gosched", "GOMAXPROCS", "NumCPU", "NumGoroutine":
+						fc.need["vsched"] = true
+						fc.repl(se.Pos(), se.End(), "vsched."+se.Sel.Name)
+						fc.goschedRewritten = true
+					}
 				}
 			}
 			if id, ok := x.Fun.(*ast.Ident); ok && id.Obj == nil {
